@@ -10,7 +10,8 @@ import sys
 from ..cfg import NORMAL, ALL, walk_local, has_suspension
 from ..facts import (cfg_of, call_name, calls_in, targets_of, guard_atoms,
                      is_attr, is_name, enclosing, local_assigns, kwarg,
-                     const_value, strip_await, resolve_local, bind_args)
+                     const_value, strip_await, resolve_local, bind_args,
+                     writers_of)
 from ..loader import txt, AnchorError
 from ..callgraph import CallGraph
 from ..escape import Escapes
@@ -65,6 +66,8 @@ def check(ctx) -> None:
     r68(ctx)
     r69(ctx)
     r610(ctx)
+    r611(ctx)
+    r612(ctx)
     ctx.extra_coverage['call_graph'] = {
         'functions': len(cg.funcs), 'call_sites_resolved': cg.resolved,
         'call_sites_unresolved': cg.unresolved,
@@ -232,7 +235,7 @@ def _invariant_ok(ctx, cg, es, e) -> str | None:
                 return 'ObjectId._pattern has minimum width 1: never empty'
     # Flag(str) branch: the conversion sits on the not-bytes branch of an
     # isinstance test, and Flag.parse constructs from Atom values (bytes)
-    if origin == 'Flag.__init__' and e.exc == 'UnicodeError':
+    if origin == 'Flag.__init__' and e.exc.startswith('Unicode'):
         cfgf = cfg_of(f)
         nodes = [n for n in cfgf.stmt_nodes() if n.lineno == e.line]
         on_str_branch = any(
@@ -704,6 +707,8 @@ EXEC_ROOT_MODS = ('pymap/message.py', 'pymap/mime/', 'pymap/search.py',
                   'pymap/fetch.py', 'pymap/parsing/response/',
                   'pymap/threads.py', 'pymap/listtree.py', 'pymap/flags.py',
                   'pymap/selected.py')
+SERIALISE_MODS = ('pymap/parsing/primitives.py',
+                  'pymap/bytes/')
 EXEC_INVARIANTS = {
     # origin qualname, what -> reason (each is a documented/checked invariant)
     ('DynamicLoadedFetchValue._get_data', 'raise RuntimeError'):
@@ -743,6 +748,15 @@ EXEC_INVARIANTS = {
         'caught by every get_* caller',
     ('BaseLoadedMessage.content', 'raise _NoContent'):
         'caught by every get_* caller',
+    ('BytesFormat.__mod__', 'raise NotImplementedError'):
+        'type-dispatch fall-through (operand neither bytes-like nor '
+        'iterable): static type of the operand, not client data',
+    ('BytesFormat._fix_join_arg', ".encode('ascii')"):
+        'str() of a numbers.Number (isinstance-guarded) is ASCII',
+    ('String.build', 'raise TypeError'):
+        'type-dispatch fall-through of the isinstance chain on `value`',
+    ('String.__bytes__', 'raise NotImplementedError'):
+        'abstract: QuotedString and LiteralString override (checked below)',
 }
 
 
@@ -750,6 +764,11 @@ def r67(ctx, cg) -> None:
     R = ctx.rule('R6.7', 'execution-time containment on the fetch/search '
                  'path', 10)
     funcs = [f for f in cg.funcs if f.rel.startswith(EXEC_ROOT_MODS)]
+    # the serialisation side of the wire objects a response is made of
+    # (String.build, __bytes__, write ...): everything but the parsers
+    funcs += [f for f in cg.funcs if f.rel.startswith(SERIALISE_MODS)
+              and not f.name.startswith(('parse', '_parse'))
+              and 'parse' not in f.name]
     es = Escapes(ctx.proj, cg)
     reach = cg.reachable(funcs)
     es.solve(reach)
@@ -775,6 +794,32 @@ def r67(ctx, cg) -> None:
                        f'its response is written; it is not a '
                        f'ResponseError, so the client gets * BYE '
                        f'[SERVERBUG] instead of a tagged NO')
+    # the facts two of the serialisation invariants rest on
+    prim = ctx.proj.module(PRIM)
+    for cn in ('QuotedString', 'LiteralString'):
+        c = prim.classes.get(cn)
+        R.check(c is not None and c.own_method('__bytes__') is not None,
+                None, getattr(c, 'node', None),
+                f'{cn} overrides String.__bytes__',
+                f'{cn} inherits the abstract String.__bytes__ (raises '
+                f'NotImplementedError when a response is written)')
+    fj = ctx.proj.cls('pymap/bytes/__init__.py',
+                      'BytesFormat').own_method('_fix_join_arg')
+    okj = False
+    if fj is not None:
+        fcfg = cfg_of(fj)
+        for c in calls_in(fj.node, 'encode'):
+            for nd in fcfg.node_containing(c):
+                for t in fcfg.nodes:
+                    if t.kind == 'test' and 'isinstance(data, Number)' in \
+                            txt(t.stmt.test) and fcfg.controlled_by(nd, t,
+                                                                    't') \
+                            and txt(c.func.value) == 'str(data)':
+                        okj = True
+    R.check(okj, fj, getattr(fj, 'node', None),
+            '_fix_join_arg encodes str(<Number>) only',
+            '.encode(\'ascii\') is applied to something other than '
+            'str(data) under isinstance(data, Number)')
     # the fact the KeyError invariant rests on
     fa = ctx.proj.cls('pymap/parsing/specials/fetchattr.py', 'FetchAttribute')
     p = fa.own_method('parse')
@@ -1089,3 +1134,220 @@ def r610(ctx) -> None:
                         f'taken for another marker and swallows the next 9 '
                         f'bytes of the stream (framing depends on literal '
                         f'content)')
+
+
+# ----------------------------------------------------------------------
+RE_FUNCS = ('compile', 'search', 'match', 'fullmatch', 'sub', 'subn', 'split',
+            'finditer', 'findall')
+
+
+def r611(ctx) -> None:
+    R = ctx.rule('R6.11', 'regular expressions built at run time contain '
+                 'client text only through re.escape', 2)
+    proj = ctx.proj
+
+    def attr_safe(f, e, depth) -> bool:
+        # self._x / cls._x : every writer assigns a safe expression
+        if not (isinstance(e, ast.Attribute) and isinstance(e.value, ast.Name)
+                and e.value.id in ('self', 'cls') and f.cls is not None):
+            return False
+        a = f.cls.find_attr(e.attr)
+        if a is not None:
+            return safe(f, a[1], depth + 1) if a[1] is not None else False
+        ws = [(g, s_) for g, s_, t, rel in writers_of(proj, e.attr)
+              if g is not None and g.cls is f.cls]
+        return bool(ws) and all(
+            safe(g, getattr(s_, 'value', None), depth + 1) for g, s_ in ws)
+
+    def list_safe(f, name: str, depth) -> bool:
+        # a local list whose every element is safe: [] + .append(safe)
+        defs = [v for _, v in local_assigns(f, name)]
+        if not defs or not all(isinstance(v, ast.List) and all(
+                safe(f, x, depth + 1) for x in v.elts) for v in defs):
+            return False
+        for c in calls_in(f.node):
+            if isinstance(c.func, ast.Attribute) and is_name(c.func.value,
+                                                             name):
+                if c.func.attr == 'append' and c.args and \
+                        safe(f, c.args[0], depth + 1):
+                    continue
+                if c.func.attr in ('append', 'extend', 'insert'):
+                    return False
+        return True
+
+    def safe(f, e, depth=0) -> bool:
+        if e is None or depth > 14:
+            return False
+        if isinstance(e, ast.Constant) and isinstance(e.value, (str, bytes)):
+            return True
+        if isinstance(e, ast.Call) and call_name(e) == 'escape':
+            return True
+        if isinstance(e, ast.BinOp) and isinstance(e.op, ast.Add):
+            return safe(f, e.left, depth + 1) and safe(f, e.right, depth + 1)
+        if isinstance(e, ast.JoinedStr):
+            return all(isinstance(v, ast.Constant) or (
+                isinstance(v, ast.FormattedValue)
+                and safe(f, v.value, depth + 1)) for v in e.values)
+        if isinstance(e, ast.Call) and call_name(e) == 'join' and \
+                isinstance(e.func, ast.Attribute) and \
+                isinstance(e.func.value, ast.Constant) and e.args:
+            a = e.args[0]
+            if isinstance(a, ast.Name):
+                return list_safe(f, a.id, depth)
+            if isinstance(a, (ast.ListComp, ast.GeneratorExp)):
+                return safe(f, a.elt, depth + 1)
+            return False
+        if isinstance(e, ast.Attribute):
+            return attr_safe(f, e, depth)
+        if isinstance(e, ast.Name):
+            if e.id in f.params():
+                # one level up: every call site passes a safe expression
+                sites = []
+                for g in proj.all_funcs('pymap/'):
+                    if f.name not in g.module.src:
+                        continue
+                    for c in calls_in(g.node, f.name):
+                        b = bind_args(f, c)
+                        if e.id in b:
+                            sites.append((g, b[e.id]))
+                return bool(sites) and depth < 3 and all(
+                    safe(g, a, depth + 3) for g, a in sites)
+            key = (id(f.node), e.id)
+            if key in visiting:
+                return True      # x = c + x + c: safe if the other defs are
+            visiting.add(key)
+            try:
+                defs = [v for _, v in local_assigns(f, e.id)]
+                return bool(defs) and all(
+                    v is not None and safe(f, v, depth + 1) for v in defs)
+            finally:
+                visiting.discard(key)
+        return False
+    visiting: set = set()
+    n = 0
+    for f in proj.all_funcs('pymap/'):
+        if f.rel.startswith(('pymap/admin/', 'pymap/backend/redis/')):
+            continue
+        if 're.' not in f.module.src:
+            continue
+        for c in calls_in(f.node):
+            if call_name(c) not in RE_FUNCS or not isinstance(
+                    c.func, ast.Attribute) or txt(c.func.value) != 're' \
+                    or not c.args:
+                continue
+            pat = c.args[0]
+            if isinstance(pat, ast.Constant):
+                continue
+            n += 1
+            R.check(safe(f, pat), f, c,
+                    f'{f.qualname}: re.{call_name(c)}({txt(pat)[:30]}, …) '
+                    f'pattern is constants + re.escape() only',
+                    f'the pattern `{txt(pat)}` of re.{call_name(c)}() can '
+                    f'contain text that did not pass re.escape(): a search '
+                    f'string / mailbox pattern with regex metacharacters '
+                    f'raises re.error (SEARCH SUBJECT "(draft" -> * BYE '
+                    f'[SERVERBUG]) or backtracks exponentially (SEARCH '
+                    f'SUBJECT "(a+)+$" stalls the single event loop for '
+                    f'every connection)')
+    if n < 2:
+        raise AnchorError(f'only {n} run-time regex construction(s) found')
+
+
+# ----------------------------------------------------------------------
+def _unbounded(const) -> bool:
+    """The regex fragment contains a quantifier without upper bound."""
+    import re._parser as sp           # stdlib regex AST
+    import re._constants as sc
+    try:
+        tree = sp.parse(const)
+    except Exception:
+        return False
+
+    def walk(t) -> bool:
+        for op, av in t:
+            if op in (sc.MAX_REPEAT, sc.MIN_REPEAT,
+                      getattr(sc, 'POSSESSIVE_REPEAT', None)):
+                lo, hi, sub = av
+                if hi == sc.MAXREPEAT or walk(sub):
+                    return True
+            elif op is sc.SUBPATTERN:
+                if walk(av[3]):
+                    return True
+            elif op is sc.BRANCH:
+                if any(walk(b) for b in av[1]):
+                    return True
+        return False
+    return walk(tree)
+
+
+def amplified_patterns(fnode) -> list:
+    """re.compile(...) in fnode whose pattern is joined from a list that
+    receives, inside a loop, a constant with an unbounded quantifier: the
+    NUMBER of unbounded quantifiers is chosen by whoever supplies the looped
+    input, and a failing match costs O(n^k)."""
+    out = []
+    loops = [x for x in ast.walk(fnode) if isinstance(x, (ast.For, ast.While))]
+    amplified = set()
+    for lp in loops:
+        for c in ast.walk(lp):
+            if isinstance(c, ast.Call) and isinstance(c.func, ast.Attribute) \
+                    and c.func.attr in ('append', 'extend') and c.args and \
+                    isinstance(c.func.value, ast.Name):
+                a = c.args[0]
+                if isinstance(a, ast.Constant) and isinstance(
+                        a.value, (str, bytes)) and _unbounded(a.value):
+                    amplified.add(c.func.value.id)
+    if not amplified:
+        return out
+    joined = set()
+    for s_ in ast.walk(fnode):
+        if isinstance(s_, ast.Assign) and len(s_.targets) == 1 and \
+                isinstance(s_.targets[0], ast.Name):
+            for x in ast.walk(s_.value):
+                if isinstance(x, ast.Call) and call_name(x) == 'join' and \
+                        x.args and isinstance(x.args[0], ast.Name) and \
+                        x.args[0].id in amplified:
+                    joined.add(s_.targets[0].id)
+    for c in ast.walk(fnode):
+        if isinstance(c, ast.Call) and call_name(c) in RE_FUNCS and \
+                isinstance(c.func, ast.Attribute) and \
+                txt(c.func.value) == 're' and c.args:
+            names = {x.id for x in ast.walk(c.args[0])
+                     if isinstance(x, ast.Name)}
+            if names & (joined | amplified):
+                out.append(c)
+    return out
+
+
+def r612(ctx) -> None:
+    R = ctx.rule('R6.12', 'the number of unbounded regex quantifiers is not '
+                 'chosen by the client', 1)
+    n = 0
+    for f in ctx.proj.all_funcs('pymap/'):
+        # sieve tests run at delivery time through the admin service only
+        # (no IMAP / ManageSieve command executes a script): out of scope
+        if f.rel.startswith(('pymap/admin/', 'pymap/backend/redis/',
+                             'pymap/sieve/tests.py')):
+            continue
+        if 're.' not in f.module.src:
+            continue
+        n += 1
+        for c in amplified_patterns(f.node):
+            R.fail(f, c, f'{f.qualname}: one unbounded quantifier per client '
+                   f'wildcard',
+                   f'`{txt(c)[:60]}` compiles a pattern with one unbounded '
+                   f'(lazy) quantifier per wildcard of the client\'s query: '
+                   f'when it does not match, the backtracking engine tries '
+                   f'every distribution of the name over the k wildcards '
+                   f'(O(n^k)): LIST "" "*a*a*a*a*a*a*a*a*b" against a '
+                   f'mailbox named "a"*60 blocks the event loop for minutes')
+    R.ok(None, None, f'{n} functions in regex-using modules scanned',
+         'no client-amplified quantifier')
+    import os
+    from ..report import VERIF
+    fx = os.path.join(VERIF, 'fixtures', 'r612_positive.py')
+    tree = ast.parse(open(fx).read())
+    hits = sum(len(amplified_patterns(x)) for x in ast.walk(tree)
+               if isinstance(x, ast.FunctionDef))
+    R.check(hits == 1, None, None, 'positive fixture still matches',
+            f'fixtures/r612_positive.py: {hits} hit(s), expected 1')
